@@ -19,9 +19,8 @@ package cache
 //@ ensures forall k string :: {mget(mapval(c.inner), k)} k != name ==> mget(mapval(c.inner), k) == old(mget(mapval(c.inner), k))
 //@ ensures forall k string :: {mhas(mapval(c.inner), k)} k != name ==> mhas(mapval(c.inner), k) == old(mhas(mapval(c.inner), k))
 
-// Load: os.ReadFile + json.Unmarshal glue; trusted against the JSON axioms of cache.spec.
+// Load: os.ReadFile + json.Unmarshal (modelled for a nil map[string]string target).
 //@ func Load
-//@ trusted encoding/json.Unmarshal through a pointer to a map field is outside the verified subset
 //@ ensures err == nil ==> result != nil && fresh(result) && CacheInv(result) && fresh(result.inner) && diskOK(path)
 //@ ensures err == nil ==> forall k string :: {mget(mapval(result.inner), k)} mget(mapval(result.inner), k) == jsonGet(fdata[path], k)
 //@ ensures err == nil ==> forall k string :: {mhas(mapval(result.inner), k)} mhas(mapval(result.inner), k) == jsonHas(fdata[path], k)
@@ -29,7 +28,6 @@ package cache
 
 // Dump: json.Marshal + os.WriteFile (truncate, then write): on error the file may be left torn.
 //@ func (*Cache).Dump
-//@ trusted encoding/json.Marshal of a map boxed in an interface is outside the verified subset
 //@ requires CacheInv(c)
 //@ modifies fexists, fdata
 //@ ensures err == nil ==> fexists == store(old(fexists), path, true) && fdata == store(old(fdata), path, marshalMap(mapval(c.inner)))
@@ -42,7 +40,6 @@ package cache
 //@ crashensures !diskOK(path) || fdata[path] == old(fdata)[path] || fdata[path] == marshalMap(mapval(c.inner))
 
 //@ func Exists
-//@ trusted os.Stat
 //@ ensures result ==> fexists[path]
 //@ ensures ioOK && fexists[path] ==> result
 
